@@ -36,13 +36,15 @@ class ViaSocksPeer(Peer):
         self.state = 'greeting'
         self.stream = None
         self.gone = False
-        self.drop_early = run.mode == 'via' and run.ch.chance(1, 6, 'viadrop')
+        self.drop_early = run.mode == 'via' and not run.burst and run.ch.chance(1, 6, 'viadrop')
 
     def connection_made(self, conn):
         self.conn = conn
 
     def data_received(self, data):
         self.buf += data
+        if self.run.burst_hold:
+            return      # (Tor is busy: it gets round to its SOCKS connections when the burst is over)
         if self.state == 'greeting' and self.drop_early:
             # the SOCKS connection dies before Tor has seen a request: no stream ever exists for it
             self.state = 'dropped'
@@ -97,6 +99,8 @@ class C09Run(StateRun):
 
     mode = None
     vias = ()
+    burst = False
+    burst_hold = False
 
     def setup(self):
         self.socks_peers = []
@@ -116,6 +120,15 @@ class C09Run(StateRun):
         self.via_moves_left = ch.draw(10, 'viamoves') if self.mode == 'via' else 0
         self.first_setconf_acked_before = {}
         self.via_left = 1 + ch.draw(4, 'nvia') if self.mode == 'via' else 0
+        self.burst = self.mode == 'via' and ch.chance(1, self.P.get('burst_every', 60), 'burst')
+        if self.burst:
+            # an application that opens well over a hundred connections through circuits at once (a crawler, a page with
+            # many resources) while Tor is slow to serve its SOCKS port: all of them are pending together
+            self.via_left = 130 + ch.draw(12, 'nburst')
+            self.burst_hold = True
+            self.via_grace = 4000
+            self.via_moves_left += 3 * self.via_left
+            sim.probe('more-than-128-via-connections-pending')
         self.scripted_ops = 3 if self.mode == 'scripted' else 0
         self.state._attacher_error = self.on_attacher_error
         self.real_to_model = {}
@@ -129,6 +142,8 @@ class C09Run(StateRun):
         sim.add_source(self.c09_actions)
 
     def finished(self):
+        if self.burst_hold:
+            return False
         done = (StateRun.finished(self) and self.via_left <= 0 and not self.pending_answers and
                 (self.mode != 'scripted' or self.attacher_installed) and not (self.boot and self.via_stream_acts()))
         if done and self.mode == 'via' and self.boot and self.via_grace > 0 and self.via_moves_left > 0 and \
@@ -388,7 +403,12 @@ class C09Run(StateRun):
                 if self.events_left < 15:
                     acts.append((1, 'remove-attacher', self.op_remove))
         elif self.via_left > 0:
-            acts.append((3, 'via-connect', self.op_via))
+            if self.burst and self.vias and self.leave_unattached and self.sim.reactor.connect_log:
+                acts.append((30, 'via-connect-burst', self.op_via_burst))
+            else:
+                acts.append((3, 'via-connect', self.op_via))
+        if self.burst_hold and self.via_left <= 0 and not self.sim.reactor.connects:
+            acts.append((6, 'peer:socks-port-served-again', self.release_burst))
         acts.extend(self.via_stream_acts())
         return acts
 
@@ -411,6 +431,36 @@ class C09Run(StateRun):
             if self.free_sports and len(self.streams) < 8:
                 acts.append((2, 'w:via-port-reused', lambda: self.via_move(lambda: self.w_stream_new())))
         return acts
+
+    def world_actions(self):
+        if self.burst_hold and self.vias:
+            return []       # (Tor is busy: nothing else moves until it serves its SOCKS port again)
+        if self.burst and self.vias and not self.refuse_leave:
+            # ... and it gives the controller time to say where each of the new streams goes
+            decided = set(sid for sid, cid in self.attach_cmds)
+            if any(getattr(s, 'socks_peer', None) is not None and not s.gone and s.status == 'NEW' and s.circ is None and
+                   s.id not in decided for s in self.streams.values()):
+                return []
+        return StateRun.world_actions(self)
+
+    def op_via_burst(self):
+        for _ in range(400):
+            before = len(self.vias)
+            if self.via_left <= 0:
+                break
+            self.op_via()
+            if len(self.vias) == before:
+                break
+
+    def release_burst(self):
+        self.burst_hold = False
+        n = sum(1 for p in self.socks_peers if not p.gone and getattr(p, 'conn', None) is not None)
+        self.sim.log('socks-port-served-again', n)
+        if n > 128:
+            self.sim.probe('more-than-128-via-connections-open-before-any-stream')
+        for p in list(self.socks_peers):
+            if not p.gone and getattr(p, 'conn', None) is not None:
+                p.data_received(b'')
 
     def via_move(self, fn):
         self.via_moves_left -= 1
@@ -487,6 +537,8 @@ class C09Run(StateRun):
     def op_via(self):
         ch, sim = self.ch, self.sim
         pool = [c for c in self.model.circs.values() if c.real is not None]
+        if self.burst and self.vias:
+            pool = [c for c in pool if c.state == 'BUILT']      # (the burst goes out at once: through circuits that are ready)
         if not pool:
             if self.events_left <= 0:
                 self.via_left = 0
@@ -546,11 +598,15 @@ class C09Run(StateRun):
         ep = mc.real.stream_via(sim.reactor, host, 80, socks_ep)
         d = ep.connect(Factory.forProtocol(App))
         wc = self.circs.get(mc.id)
-        if wc is not None and not wc.gone and ch.chance(1, 5, 'closeunder'):
+        if wc is not None and not wc.gone and not self.burst and ch.chance(1, 5, 'closeunder'):
             # the chosen circuit goes away while the connection is being made (often before its stream appears)
             sim.probe('via-circuit-closes-meanwhile')
             self.deferred_world.append(lambda wc=wc: (not wc.gone) and self.w_circ_end(wc, 'CLOSED'))
-        d.addCallbacks(lambda p: rec['result'].append(('ok', p)), lambda f: rec['result'].append(('err', f.type.__name__, f.getErrorMessage()[:100])))
+        def failed(f, rec=rec):
+            rec['result'].append(('err', f.type.__name__, f.getErrorMessage()[:100]))
+            rec.setdefault('fail_ctx', dict(held=self.burst_hold, circuit_gone=bool(rec['mc'].gone), tor_gone=bool(self.tor.gone),
+                                            streams=len(rec['streams'])))
+        d.addCallbacks(lambda p: rec['result'].append(('ok', p)), failed)
 
     def on_world_stream_new(self, s):
         if self.mode == 'via' and any(not v['result'] for v in self.vias) and getattr(s, 'socks_peer', None) is None:
@@ -565,6 +621,16 @@ class C09Run(StateRun):
             for v in self.vias:
                 if any(x.id == sid for x in v['streams']):
                     v.setdefault('attached', []).append((sid, cid))
+                    if self.burst and cid != v['mc'].id and not v['mc'].gone and not self.port_reused_early and \
+                            not v.get('web') and not v['result'] and \
+                            sum(1 for ms in self.model.all_streams if ms.id == sid) <= 1:
+                        # Tor has dropped the stream already, but the decision is on record: the only stream that ever
+                        # had this id belongs to a connection through a circuit that is still there, and that connection
+                        # has not failed (a SOCKS failure reply that overtakes the stream's NEW event ends the connection
+                        # first, and nothing is owed after that)
+                        self.sim.fail('C09.via-stream-wrong-circuit',
+                                      'stream %d of the connection through circuit %d was sent to circuit %d (Tor had ended the stream '
+                                      'by then; %d connections were made together)' % (sid, v['mc'].id, cid, len(self.vias)))
         if self.mode == 'via' and s is not None:
             rec = getattr(s, 'via_rec', None)
             if rec is not None:
@@ -672,6 +738,16 @@ class C09Run(StateRun):
                             v['k'], v['mc'].id, att))
                 if len(v['result']) > 1:
                     sim.fail('C09.via-connect-fired-twice', 'connect() fired %d times' % len(v['result']))
+                ctx = v.get('fail_ctx')
+                if ctx and ctx['held'] and not v['mc'].gone and not ctx['tor_gone'] and not ctx['streams'] and not self.refuse_leave:
+                    # it failed while Tor had not even read its SOCKS request, its circuit is there to this day (judged at
+                    # the end: at the moment of the failure the model may not have caught up with the event that caused
+                    # it) and nothing had been refused: a connection made through a circuit that was never given the
+                    # chance to be attached to it
+                    sim.fail('C09.via-connect-abandoned-while-pending',
+                             'connection %d through circuit %d failed with %s (%s) while it was waiting for its stream, with %d '
+                             'connections pending; its circuit was still there' % (
+                                 v['k'], v['mc'].id, v['result'][0][1], v['result'][0][2], len(self.vias)))
             seen = {}
             for sid, cid in self.attach_cmds:
                 seen[sid] = seen.get(sid, 0) + 1
